@@ -145,7 +145,6 @@ def main():
                     broken.append("theorem:%s axioms=%s" % (t, ax))
         else:
             # find which declarations failed
-            import re
             errs = re.findall(r"error: (\S+?:\d+:\d+): (.*)", out)
             broken.append("lake-build:DuneVerif.Props.%s %s" % (pid, "; ".join("%s %s" % e for e in errs[:4])[:600]))
         if tier == "thorough" and ok:
